@@ -953,6 +953,278 @@ fn fsacache_huge(c: &mut Case, strat: CacheStrategy) -> Res {
 }
 
 // =============================================================================================
+// Part 7: API-gap families: constructors without callback, shard-level API, buffer / pool API, virtual files, blob-store
+// constructors / strategy switch / inner_mut, FsaCache presets. Same oracles as above (exact LRU model, file bytes, twin store).
+// =============================================================================================
+use zipora::cache::BufferPool;
+use zipora::containers::specialized::NoOpEvictionCallback;
+use zipora::fsa::cache::CachedState;
+
+type LruN = LruMap<u64, Tracked, NoOpEvictionCallback>;
+type ClruN = ConcurrentLruMap<u64, Tracked, NoOpEvictionCallback>;
+impl SeqMap for LruN {
+    fn get(&self, k: u64) -> Option<Tracked> { LruMap::get(self, &k) }
+    fn put(&self, k: u64, v: Tracked) -> ZR<Option<Tracked>> { LruMap::put(self, k, v) }
+    fn remove(&self, k: u64) -> Option<Tracked> { LruMap::remove(self, &k) }
+    fn contains(&self, k: u64) -> bool { LruMap::contains_key(self, &k) }
+    fn len(&self) -> usize { LruMap::len(self) }
+    fn is_empty(&self) -> bool { LruMap::is_empty(self) }
+    fn capacity(&self) -> usize { LruMap::capacity(self) }
+    fn clear(&self) -> ZR<()> { LruMap::clear(self) }
+    fn shard_sizes(&self) -> Option<Vec<usize>> { None }
+}
+impl SeqMap for ClruN {
+    fn get(&self, k: u64) -> Option<Tracked> { ConcurrentLruMap::get(self, &k) }
+    fn put(&self, k: u64, v: Tracked) -> ZR<Option<Tracked>> { ConcurrentLruMap::put(self, k, v) }
+    fn remove(&self, k: u64) -> Option<Tracked> { ConcurrentLruMap::remove(self, &k) }
+    fn contains(&self, k: u64) -> bool { ConcurrentLruMap::contains_key(self, &k) }
+    fn len(&self) -> usize { ConcurrentLruMap::len(self) }
+    fn is_empty(&self) -> bool { ConcurrentLruMap::is_empty(self) }
+    fn capacity(&self) -> usize { ConcurrentLruMap::capacity(self) }
+    fn clear(&self) -> ZR<()> { ConcurrentLruMap::clear(self) }
+    fn shard_sizes(&self) -> Option<Vec<usize>> { Some(ConcurrentLruMap::shard_sizes(self)) }
+}
+
+/// A slice of a history against the exact LRU model, for maps built WITHOUT an eviction callback (nothing to observe but return values and sizes).
+fn run_history_plain(c: &mut Case, map: &dyn SeqMap, m: &mut Model, ops: &[Op], base: usize, next_id: &mut u64) -> Res {
+    let total_cap = m.cap * m.shards.len();
+    for (j, op) in ops.iter().enumerate() {
+        let i = base + j;
+        match *op {
+            Op::Get(k) => { let want = m.get(k); let got = nopanic("get", || map.get(k))?;
+                if let Some(t) = &got { ensure!(t.intact(), "value_corrupt", "get({k}) returned a dropped/corrupted value at step {i}"); }
+                let g = got.as_ref().map(|t| t.id);
+                if g != want { let cls = match (g, want) { (Some(_), None) => "get_returned_absent", (None, Some(_)) => "lost_entry", _ => "stale_value" }; return fail(cls, format!("step {i}: get({k})={g:?} want {want:?}; history: {}", show_ops(ops, j))); } }
+            Op::Put(k) => { let id = *next_id; *next_id += 1;
+                let r = match nopanic("put", || map.put(k, Tracked::new(id)))? { Ok(r) => r, Err(e) => return fail("put_err", format!("step {i}: put({k}) returned Err({e}) with model len {} / capacity {}; history: {}", m.len(), total_cap, show_ops(ops, j))) };
+                let (want, _ev) = m.put(k, id);
+                if let Some(t) = &r { ensure!(t.intact(), "value_corrupt", "put({k}) returned a dropped/corrupted old value at step {i}"); }
+                let g = r.as_ref().map(|t| t.id);
+                ensure!(g == want, "put_return", "step {i}: put({k}) returned old={g:?} want {want:?}; history: {}", show_ops(ops, j)); }
+            Op::Remove(k) => { let want = m.remove(k); let got = nopanic("remove", || map.remove(k))?; let g = got.as_ref().map(|t| t.id);
+                ensure!(g == want, "remove_return", "step {i}: remove({k})={g:?} want {want:?}; history: {}", show_ops(ops, j)); }
+            Op::Contains(k) => { let want = m.peek(k).is_some(); let got = nopanic("contains_key", || map.contains(k))?; ensure!(got == want, "contains", "step {i}: contains_key({k})={got} want {want}; history: {}", show_ops(ops, j)); }
+            Op::Clear => { c.note("clears", 1); m.clear(); match nopanic("clear", || map.clear())? { Ok(()) => {} Err(e) => return fail("clear_err", format!("step {i}: clear() Err({e})")) } }
+            Op::Len => { let e = map.is_empty(); ensure!(e == (m.len() == 0), "is_empty", "step {i}: is_empty()={e} model len {}", m.len()); }
+        }
+        c.ev(1);
+        let l = map.len();
+        ensure!(l <= total_cap, "len_gt_capacity", "step {i}: len()={l} > capacity {total_cap}");
+        ensure!(l == m.len(), "len", "step {i}: len()={l} model {}; history: {}", m.len(), show_ops(ops, j));
+        if let Some(ss) = map.shard_sizes() { for (s, &n) in ss.iter().enumerate() { ensure!(n <= m.cap, "shard_gt_capacity", "step {i}: shard {s} holds {n} > per-shard capacity {}", m.cap); ensure!(n == m.shards[s].len(), "shard_size", "step {i}: shard_sizes()[{s}]={n} model {}", m.shards[s].len()); } }
+        c.ev(2);
+    }
+    Ok(())
+}
+fn final_sweep_plain(c: &mut Case, map: &dyn SeqMap, m: &mut Model, nkeys: u64) -> Res {
+    for k in 0..nkeys { let want = m.peek(k).is_some(); ensure!(map.contains(k) == want, "final_contains", "final contains_key({k}) != {want}"); }
+    for s in 0..m.shards.len() { let l: Vec<(u64, u64)> = m.shards[s].iter().rev().copied().collect(); for (k, v) in l { let g = map.get(k).map(|t| t.id); ensure!(g == Some(v), "final_get", "final get({k})={g:?} want Some({v})"); m.get(k); c.ev(1); } }
+    for k in 0..nkeys { if m.peek(k).is_none() { let g = map.get(k).map(|t| t.id); ensure!(g.is_none(), "final_get_absent", "final get({k})={g:?} for a key that was evicted/removed/never put"); } }
+    Ok(())
+}
+fn drop_accounting() -> Res {
+    let errs = mon::tracked_errors(); ensure!(errs.is_empty(), "double_drop", "{}", errs.join("; "));
+    ensure!(mon::tracked_live() == 0, "value_leak", "{} values still alive after the map was dropped", mon::tracked_live());
+    Ok(())
+}
+
+/// LruMap::new / LruMap::with_config (NoOpEvictionCallback): same histories, same model.
+fn lrumap_nocb(c: &mut Case, via: &str) -> Res {
+    mon::tracked_reset();
+    let cap = pick_cap(c); let nkeys = pick_nkeys(c, cap); let fam = *c.rng.pick(&["mixed", "scan", "getheavy", "churn", "clear"]); let preset = *c.rng.pick(&["default", "perf", "mem", "sec"]);
+    let nops = 60 + c.rng.usize_below(200);
+    c.input_str("cfg", &format!("via={via} preset={preset} cap={cap} nkeys={nkeys} family={fam} no_callback"));
+    let ops = gen_history(c, fam, nkeys, cap, nops); c.input("ops", &enc_ops(&ops)); c.set_nontrivial(ops.iter().filter(|o| matches!(o, Op::Put(_))).count() > cap);
+    tag_clear_nonfull(c, &ops, cap, 1, &HashMap::new());
+    let map = match nopanic("constructor", || if via == "new" { LruN::new(cap) } else { LruN::with_config(lru_cfg(preset, cap)) })? { Ok(m) => m, Err(e) => { c.note("ctor_err", 1); c.log(format!("constructor refused: {e}")); c.set_nontrivial(false); return Ok(()); } };
+    let mut m = Model::new(cap, 1, HashMap::new()); let mut id = 1u64;
+    let r = (|| -> Res {
+        ensure!(SeqMap::capacity(&map) == cap && map.config().capacity == cap, "capacity", "capacity()={} config().capacity={} want {cap}", SeqMap::capacity(&map), map.config().capacity);
+        run_history_plain(c, &map, &mut m, &ops, 0, &mut id)?; final_sweep_plain(c, &map, &mut m, nkeys) })();
+    if r.is_ok() { let st = map.stats(); let (hr, ap) = nopanic("stats", || (st.hit_ratio(), st.avg_probe_distance()))?; c.note("stat_hit_pct", (hr * 100.0) as u64); let _ = ap;
+        if map.config().enable_statistics && st.entry_count.load(Ordering::Relaxed) != m.len() { c.note("stat_entry_count_differs", 1); } }
+    drop(map); r?; drop_accounting()
+}
+
+/// ConcurrentLruMap::new / with_config (no callback) plus the shard-level API: shard_count, shard_stats, for_each_shard, keys, rebalance, stats.
+fn clru_nocb(c: &mut Case, via: &str) -> Res {
+    mon::tracked_reset();
+    let cap = *c.rng.pick(&[1usize, 1, 2, 3]); let ns = *c.rng.pick(&[1usize, 2, 4, 8]); let preset = if via == "new" { "default" } else { *c.rng.pick(&["default", "perf", "mem", "sec"]) };
+    let fam = *c.rng.pick(&["mixed", "scan", "getheavy", "churn", "clear"]); let extra = if via == "new" { c.rng.usize_below(ns) } else { 0 };
+    let cfg = ConcurrentLruMapConfig { base_config: lru_cfg(preset, cap), shard_count: ns, load_balancing: LoadBalancingStrategy::Hash };
+    let nkeys = pick_nkeys(c, cap * ns).min(250); let nops = 60 + c.rng.usize_below(200);
+    c.input_str("cfg", &format!("via={via} preset={preset} shards={ns} cap_per_shard={cap} extra={extra} nkeys={nkeys} family={fam} no_callback"));
+    let assign = if ns > 1 { match nopanic("probe", || learn_assign(&cfg, nkeys))? { Ok(a) => a, Err(f) if f.oracle == "__inconclusive" => { c.note("ctor_err", 1); return Ok(()); } Err(f) => return Err(f) } } else { HashMap::new() };
+    let ops = gen_history(c, fam, nkeys, cap * ns, nops); c.input("ops", &enc_ops(&ops)); c.set_nontrivial(ops.iter().filter(|o| matches!(o, Op::Put(_))).count() > cap * ns);
+    tag_clear_nonfull(c, &ops, cap, ns, &assign);
+    let chunk = 10 + c.rng.usize_below(40);
+    let map = match nopanic("constructor", || if via == "new" { ClruN::new(cap * ns + extra, ns) } else { ClruN::with_config(cfg.clone()) })? { Ok(m) => m, Err(e) => { c.note("ctor_err", 1); c.log(format!("constructor refused: {e}")); c.set_nontrivial(false); return Ok(()); } };
+    let mut m = Model::new(cap, ns, assign); let mut id = 1u64;
+    let r = (|| -> Res {
+        ensure!(SeqMap::capacity(&map) == cap * ns, "capacity", "capacity()={} want {}", SeqMap::capacity(&map), cap * ns);
+        ensure!(map.shard_count() == ns && map.config().shard_count == ns, "shard_count", "shard_count()={} config().shard_count={} want {ns}", map.shard_count(), map.config().shard_count);
+        let mut base = 0usize;
+        for part in ops.chunks(chunk) {
+            run_history_plain(c, &map, &mut m, part, base, &mut id)?; base += part.len();
+            // ---- shard-level API between the chunks; none of it may change what the map serves ----
+            let seen: Arc<Mutex<Vec<usize>>> = Arc::new(Mutex::new(vec![])); let s2 = seen.clone(); let percap = cap;
+            let fr = nopanic("for_each_shard", || map.for_each_shard(move |sh: &LruN| { let l = LruMap::len(sh); if l > percap { return Err(zipora::ZiporaError::invalid_data("shard over capacity")); } s2.lock().unwrap().push(l); Ok(()) }))?;
+            if let Err(e) = fr { return fail("for_each_shard", format!("after step {base}: for_each_shard returned Err({e}) (closure fails only for a shard holding more than {cap} entries)")); }
+            let mut got = seen.lock().unwrap().clone(); got.sort(); let mut want: Vec<usize> = m.shards.iter().map(|l| l.len()).collect(); want.sort();
+            ensure!(got == want, "for_each_shard", "after step {base}: for_each_shard visited shards with sizes {got:?}, model {want:?}"); c.ev(1);
+            match nopanic("rebalance", || map.rebalance())? { Ok(()) => {} Err(e) => { c.note("rebalance_err", 1); c.log(format!("rebalance: {e}")); } }
+            for k in 0..nkeys { let w = m.peek(k).is_some(); ensure!(map.contains(k) == w, "rebalance_changed_contents", "after step {base}: rebalance() then contains_key({k}) != {w}"); } c.ev(1);
+            let ks = nopanic("keys", || map.keys())?; if ks.is_empty() && m.len() > 0 { c.note("keys_placeholder_empty", 1); }
+            for k in &ks { ensure!(m.peek(*k).is_some(), "keys_lists_absent", "after step {base}: keys() lists {k}, which is not in the map"); }
+            { let mut d = ks.clone(); d.sort(); d.dedup(); ensure!(d.len() == ks.len(), "keys_duplicate", "after step {base}: keys() lists a key twice: {ks:?}"); }
+            let st = map.stats(); let te = nopanic("stats", || { let _ = (st.hit_ratio(), st.total_memory_usage(), st.min_load_shard(), st.max_load_shard(), st.load_balance_ratio()); st.total_entries() })?;
+            if map.config().base_config.enable_statistics && te != m.len() { c.note("stat_total_entries_differs", 1); }
+            for i in 0..=ns { let some = nopanic("shard_stats", || map.shard_stats(i).is_some())?; if some != (i < ns) { c.note("shard_stats_index_odd", 1); } }
+        }
+        final_sweep_plain(c, &map, &mut m, nkeys) })();
+    drop(map); r?; drop_accounting()
+}
+
+/// Page-cache API not covered by the histories: virtual files (register_file), capacity()/size(), reads into pooled / cleared / reserved buffers.
+fn pagecache_api(c: &mut Case, single: bool) -> Res {
+    let pages = *c.rng.pick(&[1usize, 2, 3, 4, 8]); let cap = pages * PAGE_SIZE; let cfg = PageCacheConfig::balanced().with_capacity(cap);
+    let dir = tempfile::tempdir().map_err(|e| bad("__inconclusive", format!("tempdir: {e}")))?;
+    let salt = c.rng.next(); let nops = 30 + c.rng.usize_below(60); let pool_max = c.rng.usize_below(4);
+    let sizes = [*c.rng.pick(FILE_SIZES), 1 + c.rng.usize_below(6 * PAGE_SIZE)];
+    c.input_str("cfg", &format!("{} api cap={pages}p sizes={sizes:?} nops={nops} pool_max={pool_max}", if single { "single" } else { "lru" })); c.input("salt", &salt.to_le_bytes()); c.set_nontrivial(true);
+    let cache = match nopanic("constructor", || if single { SingleLruPageCache::new(cfg.clone()).map(|x| Pc::Single(x, Default::default())) } else { LruPageCache::new(cfg.clone()).map(Pc::Lru) })? { Ok(x) => x, Err(e) => { c.note("ctor_err", 1); c.log(format!("ctor: {e}")); return Ok(()); } };
+    match &cache { Pc::Single(s, _) => ensure!(s.capacity() == cap, "capacity", "capacity()={} configured {cap}", s.capacity()), Pc::Lru(l) => c.note("shard_count", l.shard_count() as u64) }
+    let reg = |cache: &Pc, fd: i32| -> ZR<FileId> { match cache { Pc::Lru(l) => l.register_file(fd), Pc::Single(s, _) => s.register_file(fd) } };
+    let mut virt: Vec<FileId> = vec![]; let mut files: Vec<PFile> = vec![];
+    for (i, &sz) in sizes.iter().enumerate() {
+        match nopanic("register_file(-1)", || reg(&cache, -1))? { Ok(v) => virt.push(v), Err(e) => { c.note("register_virtual_refused", 1); c.log(format!("register_file(-1): {e}")); } }
+        let data = file_bytes(salt.wrapping_add(i as u64 * 7919), sz); let path = dir.path().join(format!("f{i}.bin")); std::fs::write(&path, &data).map_err(|e| bad("__inconclusive", format!("write: {e}")))?;
+        let id = match cache.open(&path) { Ok(id) => id, Err(e) => return fail("open_err", format!("{e}")) }; files.push(PFile { path, id, data });
+    }
+    { let mut all: Vec<FileId> = virt.iter().copied().chain(files.iter().map(|f| f.id)).collect(); let n = all.len(); all.sort(); all.dedup();
+      ensure!(all.len() == n, "file_id_reused", "virtual ids {virt:?} and opened ids {:?} are not pairwise distinct (pages of different files would alias)", files.iter().map(|f| f.id).collect::<Vec<_>>()); c.ev(1); }
+    let fd = 3 + c.rng.below(100) as i32;
+    match nopanic("register_file(fd)", || reg(&cache, fd))? { Ok(_) => c.note("register_fd_ok", 1), Err(_) => c.note("register_fd_refused", 1) }
+    let pool = BufferPool::new(pool_max); let mut max_size = 0usize;
+    for step in 0..nops {
+        let x = c.rng.below(100);
+        if x < 70 { let fi = c.rng.usize_below(files.len()); let id = files[fi].id; let (off, len) = pick_range(c, files[fi].data.len()); c.hash_more(&off.to_le_bytes()); c.hash_more(&len.to_le_bytes());
+            let mut b = nopanic("BufferPool::get", || pool.get())?;
+            ensure!(b.is_empty() && b.data().is_empty(), "pool_buffer_stale", "step {step}: BufferPool::get() returned a buffer that still holds {} bytes", b.len()); c.ev(1);
+            if c.rng.bool() { let n = *c.rng.pick(&[0usize, 1, 100, 4096, 10000]); b.reserve(n); if b.capacity() < n { c.note("reserve_capacity_short", 1); } ensure!(b.data().is_empty(), "buffer_changed_by_reserve", "step {step}: reserve({n}) on an empty buffer made it hold {} bytes", b.len()); }
+            match &cache { Pc::Single(s, _) => { nopanic("read", || s.read(id, off, len, &mut b))?.map_err(|e| bad("read_err", format!("step {step}: read(off={off}, len={len}): {e}")))?; }
+                Pc::Lru(l) => { b = nopanic("read", || l.read(id, off, len))?.map_err(|e| bad("read_err", format!("step {step}: read(off={off}, len={len}): {e}")))?; } }
+            check_buf(c, "read into a pooled buffer", &b, &files[fi].data[off as usize..off as usize + len], off, step)?;
+            let ht = b.hit_type(); c.note(&format!("hit_type_{}", ht.as_index()), 1);
+            match c.rng.below(3) { 0 => pool.put(b), 1 => { b.clear(); ensure!(b.is_empty() && b.len() == 0 && b.data().is_empty(), "buffer_clear_not_empty", "step {step}: after clear() the buffer still holds {} bytes", b.len()); c.ev(1); pool.put(b); } _ => {} }
+        } else if x < 85 && !virt.is_empty() { let v = *c.rng.pick(&virt); let off = c.rng.below(3 * PAGE_SIZE as u64); let len = c.rng.usize_below(2 * PAGE_SIZE);
+            match nopanic("read of a virtual file id", || cache.read(v, off, len, false))? { Ok(b) => { c.note("virtual_read_ok", 1); if !b.is_empty() { c.note("virtual_read_nonempty", 1); } } Err(_) => c.note("virtual_read_err", 1) }
+        } else if x < 92 { let fi = c.rng.usize_below(files.len()); let p = c.rng.usize_below(files[fi].data.len() / PAGE_SIZE + 2) as u32; nopanic("invalidate_page", || cache.invalidate_page(files[fi].id, p))?.map_err(|e| bad("invalidate_err", format!("{e}")))?; }
+        else { let st = nopanic("BufferPool::stats", || pool.stats())?; let _ = (st.reuse_ratio(), st.pool_utilization()); if st.available_count > st.max_size { c.note("pool_gt_max", 1); } c.note("pool_reuses", st.reuses); }
+        if let Pc::Single(s, _) = &cache { let sz = nopanic("size", || s.size())?; max_size = max_size.max(sz); if sz > pages { c.note("size_gt_capacity_pages", 1); } }
+    }
+    for f in &files { let mut off = 0usize; while off < f.data.len() { let len = (PAGE_SIZE + PAGE_SIZE / 2).min(f.data.len() - off); let b = cache.read(f.id, off as u64, len, false).map_err(|e| bad("read_err", format!("final sweep: {e}")))?; check_buf(c, "final sweep read", &b, &f.data[off..off + len], off as u64, nops)?; off += len; } }
+    c.note("max_size_pages", max_size as u64);
+    Ok(())
+}
+
+/// CacheBuffer as a byte container: copy / extend / clear / reserve / from_data / pool round trip / cache reads, against a Vec<u8>.
+/// `with_reserve` = false: reserve() only on an empty buffer (family `ops`); true: also on a buffer that holds data (target cachebuf/reserve).
+fn cachebuf_ops(c: &mut Case, with_reserve: bool) -> Res {
+    let dir = tempfile::tempdir().map_err(|e| bad("__inconclusive", format!("tempdir: {e}")))?;
+    let fsize = 1 + c.rng.usize_below(5 * PAGE_SIZE); let salt = c.rng.next(); let data = file_bytes(salt, fsize); let path = dir.path().join("f.bin"); std::fs::write(&path, &data).map_err(|e| bad("__inconclusive", format!("write: {e}")))?;
+    let cfg = PageCacheConfig::balanced().with_capacity(2 * PAGE_SIZE);
+    let sc = SingleLruPageCache::new(cfg).map_err(|e| bad("ctor_err", format!("{e}")))?; let id = sc.open_file(&path).map_err(|e| bad("open_err", format!("{e}")))?;
+    let nops = 10 + c.rng.usize_below(50); let pool = BufferPool::new(1 + c.rng.usize_below(3));
+    const LENS: &[usize] = &[0, 1, 7, 100, 1000, 4096, 5000, 20000];
+    let mut b = CacheBuffer::new(); let mut model: Vec<u8> = vec![]; let mut log = String::new(); let mut plan: Vec<(u64, usize, usize)> = vec![];
+    for _ in 0..nops { plan.push((c.rng.below(8), *c.rng.pick(LENS), c.rng.usize_below(fsize + 1))); }
+    { let mut l = 0usize; for &(op, n, _) in &plan { match op { 0 | 4 => l = n, 1 => l += n, 2 | 5 => l = 0, 3 => { if with_reserve && l > 0 && n > 0 { c.tag("reserve_on_nonempty_buffer"); } } _ => l = 1 } } } // (6 | 7: a read; counted as non-empty)
+    c.input_str("cfg", &format!("cachebuf with_reserve={with_reserve} fsize={fsize} nops={nops} plan={:?}", plan.iter().map(|p| (p.0, p.1)).collect::<Vec<_>>())); c.input("salt", &salt.to_le_bytes()); c.set_nontrivial(true);
+    for (step, &(op, n, pos)) in plan.iter().enumerate() {
+        let mut after_reserve = false;
+        match op {
+            0 => { let x = c.rng.bytes(n); b.copy_from_slice(&x); model = x; log.push_str(&format!("copy{n} ")); }
+            1 => { let x = c.rng.bytes(n); b.extend_from_slice(&x); model.extend_from_slice(&x); log.push_str(&format!("ext{n} ")); }
+            2 => { b.clear(); model.clear(); log.push_str("clear "); }
+            3 => { if !with_reserve && !model.is_empty() { continue; } let old = b.capacity().max(model.len()); let n = if with_reserve && n == 20000 { 300_000 } else { n }; nopanic("reserve", || b.reserve(n))?; if b.capacity() < n { c.note("reserve_capacity_short", 1); } log.push_str(&format!("reserve{n} ")); after_reserve = true;
+                   let junk: Vec<Vec<u8>> = (0..4).map(|_| vec![0xA5u8; old.max(1)]).collect(); std::hint::black_box(&junk); } // whatever the old storage was, it is free to be re-used now
+            4 => { let x = c.rng.bytes(n); b = CacheBuffer::from_data(x.clone()); model = x; log.push_str(&format!("from{n} ")); }
+            5 => { pool.put(std::mem::take(&mut b)); b = pool.get(); model.clear(); log.push_str("pool ");
+                   ensure!(b.is_empty() && b.data().is_empty(), "pool_buffer_stale", "step {step}: a buffer holding data was put into the pool; get() handed it out still holding {} bytes; ops: {log}", b.len()); }
+            6 => { let off = pos.min(fsize); let len = n.min(fsize - off); sc.read(id, off as u64, len, &mut b).map_err(|e| bad("read_err", format!("step {step}: {e}")))?; model = data[off..off + len].to_vec(); log.push_str(&format!("read@{off}+{len} ")); }
+            _ => { let off = pos.min(fsize); let len = n.min(fsize - off); b = sc.read_new(id, off as u64, len).map_err(|e| bad("read_err", format!("step {step}: {e}")))?; model = data[off..off + len].to_vec(); log.push_str(&format!("readnew@{off}+{len} ")); }
+        }
+        let got = b.data(); c.ev(1);
+        if got != &model[..] { let first = got.iter().zip(model.iter()).position(|(a, b)| a != b).unwrap_or(got.len().min(model.len()));
+            return fail(if after_reserve { "buffer_changed_by_reserve" } else if got.len() != model.len() { "buffer_len" } else { "buffer_bytes" }, format!("step {step}: buffer holds {} bytes, expected {} (first difference at +{first}); ops: {log}", got.len(), model.len())); }
+        ensure!(b.len() == model.len() && b.is_empty() == model.is_empty(), "buffer_len", "step {step}: len()={} is_empty()={} for {} bytes; ops: {log}", b.len(), b.is_empty(), model.len());
+        let _ = b.hit_type();
+    }
+    Ok(())
+}
+
+/// CachedBlobStore::new / with_cache, strategy switching in mid-history, writes and removals that go through inner_mut().
+fn cachedblob_api(c: &mut Case, via: &str) -> Res {
+    let pages = *c.rng.pick(&[0usize, 1, 2, 4, 8]); let cfg = PageCacheConfig::balanced().with_capacity((pages * PAGE_SIZE).max(1000));
+    let nops = 20 + c.rng.usize_below(80); c.input_str("cfg", &format!("via={via} cache_pages={pages} nops={nops} api")); let sd = c.rng.next(); c.input("rng", &sd.to_le_bytes());
+    let mut store = if via == "new" { CachedBlobStore::new(MemoryBlobStore::new(), cfg).map_err(|e| bad("ctor_err", format!("{e}")))? }
+        else { let cache = Arc::new(LruPageCache::new(cfg).map_err(|e| bad("ctor_err", format!("{e}")))?); CachedBlobStore::with_cache(MemoryBlobStore::new(), cache).map_err(|e| bad("ctor_err", format!("{e}")))? };
+    ensure!(store.write_strategy() == CacheWriteStrategy::WriteThrough, "ctor_strategy", "{via}() is documented to use write-through, write_strategy()={:?}", store.write_strategy());
+    let mut twin = MemoryBlobStore::new(); let mut ids: Vec<u32> = vec![]; let mut removed: Vec<u32> = vec![]; let mut nontriv = 0;
+    for step in 0..nops {
+        let x = c.rng.below(100);
+        if x < 35 || ids.is_empty() { let (_k, blob) = if c.rng.chance(1, 8) { (0, vec![]) } else { gen::bytes_any(&mut c.rng, 3 * PAGE_SIZE) }; c.hash_more(&blob); let behind = c.rng.chance(1, 4);
+            let a = if behind { c.note("inner_mut_puts", 1); nopanic("inner_mut().put", || store.inner_mut().put(&blob))? } else { nopanic("put", || store.put(&blob))? }; let b = twin.put(&blob);
+            match (a, b) { (Ok(a), Ok(b)) => { ensure!(a == b, "put_id", "step {step}: cached store assigned id {a}, an identical plain store {b}"); ids.push(a); nontriv += 1; } (a, b) => return fail("put_err", format!("step {step}: cached {:?} twin {:?}", a.is_ok(), b.is_ok())) }
+        } else if x < 72 { let id = if c.rng.chance(1, 8) && !removed.is_empty() { *c.rng.pick(&removed) } else { *c.rng.pick(&ids) };
+            let got = nopanic("get", || store.get(id))?; let inner = store.inner().get(id); let tw = twin.get(id); c.ev(2);
+            match (&got, &inner) { (Ok(g), Ok(i)) => { if g != i { return fail("cached_get_mismatch", format!("step {step}: get({id}) through the cache returned {} bytes, the wrapped store {} bytes (or different content)", g.len(), i.len())); } } (Err(_), Err(_)) => {} _ => return fail("cached_get_mismatch", format!("step {step}: get({id}) cached ok={} wrapped ok={}", got.is_ok(), inner.is_ok())) }
+            match (&got, &tw) { (Ok(g), Ok(t)) => ensure!(g == t, "cached_get_vs_twin", "step {step}: get({id}) differs from an independent store fed the same operations"), (Err(_), Err(_)) => {} _ => return fail("cached_get_vs_twin", format!("step {step}: get({id}) ok={} twin ok={}", got.is_ok(), tw.is_ok())) }
+            let (s1, s2) = (store.size(id).ok().flatten(), twin.size(id).ok().flatten()); ensure!(s1 == s2, "size", "step {step}: size({id})={s1:?} twin {s2:?}"); ensure!(store.contains(id) == twin.contains(id), "contains", "step {step}: contains({id})");
+        } else if x < 84 { let i = c.rng.usize_below(ids.len()); let id = ids[i]; let behind = c.rng.chance(1, 4);
+            let a = if behind { c.note("inner_mut_removes", 1); nopanic("inner_mut().remove", || store.inner_mut().remove(id))? } else { nopanic("remove", || store.remove(id))? }; let b = twin.remove(id);
+            ensure!(a.is_ok() == b.is_ok(), "remove", "step {step}: remove({id}) ok={} twin ok={}", a.is_ok(), b.is_ok()); if a.is_ok() { ids.swap_remove(i); removed.push(id); }
+            let g = store.get(id); let gi = store.inner().get(id); ensure!(g.is_ok() == gi.is_ok(), if behind { "get_after_inner_remove" } else { "get_after_remove" }, "step {step}: after remove({id}){} the cached store get ok={} but the wrapped store ok={}", if behind { " on inner_mut()" } else { "" }, g.is_ok(), gi.is_ok()); c.ev(1);
+        } else if x < 92 { let s = *c.rng.pick(&[CacheWriteStrategy::WriteThrough, CacheWriteStrategy::WriteBack, CacheWriteStrategy::WriteAround]); store.set_write_strategy(s); ensure!(store.write_strategy() == s, "set_write_strategy", "step {step}: set_write_strategy({s:?}) then write_strategy()={:?}", store.write_strategy()); c.note("strategy_switches", 1); }
+        else if x < 96 { let st = nopanic("cache_stats", || store.cache_stats())?; c.note("cache_hits", st.hit_counts[0]); let _ = nopanic("invalidation_stats", || store.invalidation_stats())?; if c.rng.bool() { store.disable_cache() } else { store.enable_cache() } }
+        else { ensure!(BlobStore::len(&store) == twin.len(), "len", "step {step}: len()={} twin {}", BlobStore::len(&store), twin.len()); }
+    }
+    store.enable_cache();
+    for &id in &ids { let g = store.get(id).map_err(|e| bad("cached_get_mismatch", format!("final get({id}) Err({e})")))?; let t = twin.get(id).map_err(|e| bad("__inconclusive", format!("{e}")))?; ensure!(g == t, "cached_get_vs_twin", "final get({id}) differs"); c.ev(1); }
+    c.set_nontrivial(nontriv >= 2); Ok(())
+}
+
+/// FsaCache::new and the config presets; is_full(); CachedState free/used marking does not disturb what is stored.
+fn fsacache_presets(c: &mut Case, which: &str) -> Res {
+    let want = match which { "small" => FsaCacheConfig::small(), "large" => FsaCacheConfig::large(), "memory_efficient" => FsaCacheConfig::memory_efficient(), _ => FsaCacheConfig::default() };
+    let inserts = if which == "small" { want.max_states + 1200 + c.rng.usize_below(1500) } else { 200 + c.rng.usize_below(1500) };
+    c.input_str("cfg", &format!("preset={which} max_states={} inserts={inserts}", want.max_states)); let sd = c.rng.next(); c.input("rng", &sd.to_le_bytes()); c.set_nontrivial(true);
+    let mut cache = match nopanic("constructor", || if which == "new" { FsaCache::new() } else { FsaCache::with_config(want.clone()) })? { Ok(x) => x, Err(e) => { c.note("ctor_err", 1); c.log(format!("ctor: {e}")); c.set_nontrivial(false); return Ok(()); } };
+    let max = cache.config().max_states; ensure!(max == want.max_states && cache.config().strategy == want.strategy, "config", "config() = ({max}, {:?}) but the cache was built with ({}, {:?})", cache.config().strategy, want.max_states, want.strategy);
+    let mut model: HashMap<u32, (u32, u32, bool)> = HashMap::new(); let (mut evicted, mut sweeps) = (0u64, 0u64);
+    for i in 0..inserts {
+        let (parent, base, term) = (c.rng.below(1 << 24) as u32, c.rng.next() as u32, c.rng.bool());
+        let id = nopanic("cache_state", || cache.cache_state(parent, base, term))?.map_err(|e| bad("cache_state_err", format!("insert #{i}: {e}")))?; model.insert(id, (parent, base, term));
+        let mut st = match cache.get_state(id) { Some(s) => s, None => return fail("lost_entry", format!("insert #{i}: state {id} is not retrievable right after cache_state returned it")) };
+        ensure!((st.parent(), st.child_base, st.is_terminal()) == (parent, base, term) && !st.is_free(), "stale_value", "insert #{i}: get_state({id}) = ({}, {}, {}) want ({parent}, {base}, {term})", st.parent(), st.child_base, st.is_terminal());
+        if i % 8 == 0 { st.mark_free(); ensure!(st.is_free() && (st.parent(), st.child_base, st.is_terminal()) == (parent, base, term), "state_flags", "mark_free() changed the state to ({}, {}, {}, free={})", st.parent(), st.child_base, st.is_terminal(), st.is_free());
+            st.mark_used(); ensure!(!st.is_free() && (st.parent(), st.child_base, st.is_terminal()) == (parent, base, term), "state_flags", "mark_used() changed the state to ({}, {}, {}, free={})", st.parent(), st.child_base, st.is_terminal(), st.is_free());
+            let s2 = CachedState::new(base, parent, term, true); ensure!(s2.is_free() && s2.parent() == parent && s2.child_base == base && s2.is_terminal() == term, "state_flags", "CachedState::new(.., is_free=true) reads back differently"); c.ev(1); }
+        let cs = cache.stats().cached_states; ensure!(cs <= max, "len_gt_capacity", "insert #{i}: {cs} states cached, max_states {max}"); c.ev(2);
+        if cs != model.len() { sweeps += 1; let keys: Vec<u32> = model.keys().copied().collect();
+            for k in keys { match cache.get_state(k) { None => { ensure!(k != id, "lost_entry", "insert #{i}: state {id} vanished in the eviction that made room for it"); model.remove(&k); evicted += 1; }
+                Some(s) => { let w = model[&k]; ensure!((s.parent(), s.child_base, s.is_terminal()) == w, "stale_value", "after eviction get_state({k}) = ({}, {}, {}) want {w:?}", s.parent(), s.child_base, s.is_terminal()); } } }
+            ensure!(cs == model.len(), "len", "insert #{i}: stats().cached_states={cs}, {} states retrievable", model.len()); }
+        let full = cache.is_full(); ensure!(full == (model.len() >= max), "is_full", "insert #{i}: is_full()={full} with {} of {max} states cached", model.len());
+        if c.rng.chance(1, 16) { let ks: Option<u32> = model.keys().copied().filter(|k| *k != id).min(); if let Some(k) = ks { let k = if c.rng.bool() { k } else { id }; ensure!(cache.remove_state(k), "remove_return", "remove_state({k}) = false for a cached state"); model.remove(&k); ensure!(cache.get_state(k).is_none(), "get_returned_absent", "get_state({k}) after remove_state"); ensure!(!cache.is_full() || model.len() >= max, "is_full", "is_full() after a removal with {} of {max}", model.len()); } }
+    }
+    let st = cache.stats(); let _ = nopanic("stats ratios", || (st.hit_ratio(), st.memory_efficiency()))?;
+    c.note("evicted", evicted); c.note("sweeps", sweeps);
+    Ok(())
+}
+
+// =============================================================================================
 pub fn run(ctx: &mut Ctx) {
     // ---- LruMap, sequential ----
     let fams = ["mixed", "scan", "getheavy", "churn", "clear", "clearfull", "cap1"];
@@ -1017,4 +1289,14 @@ pub fn run(ctx: &mut Ctx) {
     for (name, st) in [("bfs", CacheStrategy::BreadthFirst), ("dfs", CacheStrategy::DepthFirst), ("cache_friendly", CacheStrategy::CacheFriendly)] {
         for idx in 0..ctx.n(2, 15) as u64 { ctx.case(&format!("fsacache/{name}"), "huge_states", idx, |c| fsacache_huge(c, st)); }
     }
+    // ---- API-gap families (constructors without callback, shard-level API, buffers / pool / virtual files, blob-store ctor + inner_mut, FsaCache presets) ----
+    for via in ["new", "with_config"] {
+        for idx in 0..ctx.n(80, 2000) as u64 { ctx.case(&format!("lrumap/{via}"), "nocb", idx, |c| lrumap_nocb(c, via)); }
+        for idx in 0..ctx.n(50, 1200) as u64 { ctx.case(&format!("clru/{via}"), "nocb_shard_api", idx, |c| clru_nocb(c, via)); }
+    }
+    for single in [false, true] { let t = format!("pagecache/{}/balanced", if single { "single" } else { "lru" }); for idx in 0..ctx.n(40, 1000) as u64 { ctx.case(&t, "api", idx, |c| pagecache_api(c, single)); } }
+    for idx in 0..ctx.n(60, 2000) as u64 { ctx.case("cachebuf", "ops", idx, |c| cachebuf_ops(c, false)); }
+    for idx in 0..ctx.n(30, 1000) as u64 { ctx.case("cachebuf/reserve", "ops", idx, |c| cachebuf_ops(c, true)); }
+    for via in ["new", "with_cache"] { for idx in 0..ctx.n(50, 1200) as u64 { ctx.case(&format!("cachedblob/{via}"), "api", idx, |c| cachedblob_api(c, via)); } }
+    for (which, q, t) in [("new", 4, 60), ("small", 3, 40), ("large", 3, 40), ("memory_efficient", 4, 60)] { for idx in 0..ctx.n(q, t) as u64 { ctx.case(&format!("fsacache/preset_{which}"), "presets", idx, |c| fsacache_presets(c, which)); } }
 }
